@@ -23,6 +23,57 @@ from harness.common import Ctx, Finding, SearchResult, Stream, exc_enum
 PROP = 'C03'
 
 
+class CaseTimeout(BaseException):
+	"""one real-code / CPython evaluation used up its CPU budget (BaseException: the handlers of tranp that wrap `Exception` must not swallow it)"""
+
+
+class cpu_budget:
+	"""`with cpu_budget(seconds):` raises CaseTimeout in the main thread once the body has used that much CPU time of this process
+	(ITIMER_PROF: independent of the load of the machine; re-fires every second until the body is left). A no-op off the main thread."""
+
+	def __init__(self, seconds: float) -> None:
+		self.seconds = seconds
+		self.armed = False
+
+	def __enter__(self) -> 'cpu_budget':
+		import signal
+		import threading
+		if threading.current_thread() is threading.main_thread() and hasattr(signal, 'setitimer'):
+			def fire(signum: int, frame: Any) -> None:
+				raise CaseTimeout(f'more than {self.seconds} s of CPU time')
+			self.old = signal.signal(signal.SIGPROF, fire)
+			signal.setitimer(signal.ITIMER_PROF, self.seconds, 1.0)
+			self.armed = True
+		return self
+
+	def __exit__(self, *a: Any) -> bool:
+		import signal
+		if self.armed:
+			signal.setitimer(signal.ITIMER_PROF, 0)
+			signal.signal(signal.SIGPROF, self.old)
+		return False
+
+
+CPYTHON_BUDGET_S = 10.0     # one generated program under the recorder (normally milliseconds)
+TRANP_BUDGET_S = 60.0       # load + every type_of of one program (normally well under a second; the first load of a session about two)
+
+
+class Deadline:
+	"""total wall budget of one stream / search; what it cuts is counted in the evidence, never a finding"""
+
+	def __init__(self, ctx: Ctx, quick_s: float, thorough_s: float) -> None:
+		import time
+		self.t_end = time.time() + (quick_s if ctx.tier == 'quick' else thorough_s)
+		self.cut = 0
+
+	def over(self) -> bool:
+		import time
+		if time.time() > self.t_end:
+			self.cut += 1
+			return True
+		return False
+
+
 # ---------------------------------------------------------------------------------------------
 # real-code plumbing
 
@@ -50,7 +101,10 @@ class Session:
 
 def real_type(refl: Any, node: Any) -> str:
 	try:
-		return 'ok ' + refl.type_of(node).pretty
+		with cpu_budget(TRANP_BUDGET_S):
+			return 'ok ' + refl.type_of(node).pretty
+	except CaseTimeout:
+		return 'timeout'
 	except Exception as e:  # noqa: BLE001
 		return exc_enum(e)
 
@@ -124,9 +178,10 @@ def infer_session(ctx: Ctx, rng: random.Random, n_modules: int, per_module: int,
 def infer_module(sess: Session, env: list[tuple[str, X.Ty]], exprs: list[tuple[str, str]]) -> list[tuple[Any, list[str], list[str]]]:
 	src = X.header(env) + ''.join(f'\tv{i} = {e}\n' for i, (_, e) in enumerate(exprs))
 	try:
-		refl, stmts = sess.statements(src)
+		with cpu_budget(TRANP_BUDGET_S):
+			refl, stmts = sess.statements(src)
 		assert len(stmts) == len(exprs)
-	except Exception:  # noqa: BLE001 - one unparsable statement: fall back to one module per statement
+	except (Exception, CaseTimeout):  # noqa: BLE001 - one unparsable statement: fall back to one module per statement
 		if len(exprs) == 1:
 			return []
 		out = []
@@ -156,7 +211,12 @@ def stream_infer(ctx: Ctx) -> Stream:
 	cases: list[tuple[Any, list[str], list[str]]] = []
 	cases.extend(corpus_cases(ctx))
 	n_sessions = ctx.scale(6, 40)
+	dl = Deadline(ctx, 40, 600)
+	done = 0
 	for i in range(n_sessions):
+		if i >= 3 and dl.over():     # (one session of each mix always runs)
+			break
+		done += 1
 		if i % 3 == 0:
 			mix = {'well': 0.8, 'odd': 0.2}
 		elif i % 3 == 1:
@@ -165,6 +225,7 @@ def stream_infer(ctx: Ctx) -> Stream:
 			mix = {'well': 0.4, 'hetero': 0.3, 'fault': 0.15, 'odd': 0.15}
 		cases.extend(infer_session(ctx, rng, ctx.scale(5, 12), ctx.scale(24, 30), mix))
 	st = common.correspond('infer', cases, 'infer', classify=classify_infer)
+	st.histogram['sessions-cut-by-deadline'] = n_sessions - done
 	st.note = ('sessions = fresh tranp Apps; per session several modules `def f(<typed params>) -> None:` with one `v = <expr>` per generated '
 		'expression; real Reflections.type_of(value node).pretty / exception enum vs model infer (state threaded per session); '
 		'kinds: well-typed (type-directed), fault (one ill-typed atom), odd (pinned accepted oddities), hetero (heterogeneous list literal)')
@@ -201,13 +262,17 @@ def stream_programs(ctx: Ctx) -> Stream:
 	cases: list[tuple[Any, list[str], list[str]]] = []
 	skipped = 0
 	sess = Session(ctx)
+	dl = Deadline(ctx, 25, 400)
 	for i in range(ctx.scale(20, 300)):
+		if i >= 5 and dl.over():
+			break
 		if i % 50 == 49:
 			sess = Session(ctx)
 		src, _, _, _ = c03_progs.generate(random.Random(rng.random()), allow_hetero=rng.random() < 0.3, modelled=True)
 		try:
-			case = c03_prog_stream.program_case(sess, src)
-		except Exception:  # noqa: BLE001 - a program tranp cannot load is a search matter (search_typed_programs), not a correspondence case
+			with cpu_budget(TRANP_BUDGET_S):
+				case = c03_prog_stream.program_case(sess, src)
+		except (Exception, CaseTimeout):  # noqa: BLE001 - a program tranp cannot load is a search matter (search_typed_programs), not a correspondence case
 			case = None
 		if case is None:
 			skipped += 1
@@ -219,9 +284,146 @@ def stream_programs(ctx: Ctx) -> Stream:
 		hist.update(d['hist'])
 	st = common.correspond('infer-programs', cases, 'infer')
 	st.histogram = dict(hist)
+	st.histogram['cut-by-deadline'] = dl.cut
 	st.note = (f'generated programs with user classes (single inheritance, instance / class variables, properties, methods, classmethods, '
 		f'both iterator protocol forms): per function body `env`, then decl / for / here ops over a growing environment; class table read from '
 		f'the source with CPython ast; skipped programs: {skipped}')
+	return st
+
+
+def operator_case(sess: Session, src: str) -> tuple[Any, list[str], list[str]] | None:
+	"""one program of user classes overloading operators -> `classes`, `opparams`, then one `binop` line per declaration of the
+	entry function whose value is a flat chain over instance variables / scalar literals"""
+	from harness import c03_prog_stream as PS
+	from harness.c03_search import BINOP_DUNDER
+	tree = ast.parse(src)
+	ct, classes = PS.class_table(src)
+	dunders = set(BINOP_DUNDER.values())
+	rows = []
+	for c in tree.body:
+		if isinstance(c, ast.ClassDef):
+			for m in c.body:
+				if isinstance(m, ast.FunctionDef) and m.name in dunders and len(m.args.args) == 2:
+					rows.append(f'( {c.name} {m.name} {PS.annot_sexp(m.args.args[1].annotation, classes)} )')
+	fn = next(n for n in tree.body if isinstance(n, ast.FunctionDef))
+	with cpu_budget(TRANP_BUDGET_S):
+		refl, stmts = sess.statements(src)
+	assigns = [st for st in fn.body if isinstance(st, ast.Assign)]
+	if len(assigns) != len(fn.body) or len(stmts) != len(assigns):
+		return None
+	var_ty: dict[str, str] = {}
+	tok = {'Add': '+', 'Sub': '-', 'Mult': '*', 'Div': '/', 'Mod': '%', 'BitOr': '|', 'BitAnd': '&', 'BitXor': '^', 'LShift': '<<', 'RShift': '>>'}
+
+	def operand(n: ast.expr) -> str | None:
+		if isinstance(n, ast.Name):
+			return var_ty.get(n.id)
+		if isinstance(n, ast.Constant) and type(n.value) in (int, float, str):
+			return type(n.value).__name__
+		return None
+
+	def flat(n: ast.expr) -> list[str] | None:
+		"""[type, op, type, …] of a left-nested chain without parentheses"""
+		if not isinstance(n, ast.BinOp) or type(n.op).__name__ not in tok:
+			t = operand(n)
+			return [t] if t else None
+		if isinstance(n.left, ast.BinOp) and n.left.col_offset != n.col_offset:
+			return None   # a parenthesised left operand is a Group node
+		l, r = flat(n.left), operand(n.right)
+		return [*l, tok[type(n.op).__name__], r] if l and r else None
+	ops = [f'classes\t{ct}', f"opparams\t( {' '.join(rows)} )"]
+	real = ['ok', 'ok']
+	hist: Counter[str] = Counter()
+	for a, st in zip(assigns, stmts):
+		tgt = a.targets[0]
+		if not isinstance(tgt, ast.Name):
+			continue
+		v = a.value
+		if isinstance(v, ast.Call) and isinstance(v.func, ast.Name) and v.func.id in classes:
+			var_ty[tgt.id] = f'( cls {v.func.id} )'
+			continue
+		ch = flat(v) if isinstance(v, ast.BinOp) else None
+		if ch is None:
+			continue
+		r = real_type(refl, st.value)
+		ops.append('binop\t' + '\t'.join(ch))
+		real.append(r)
+		hist[f"{len(ch) // 2} step(s):{'ok' if r.startswith('ok ') else r}"] += 1
+	if len(ops) == 2:
+		return None
+	return {'program': src, 'hist': dict(hist)}, ops, real
+
+
+def stream_operators(ctx: Ctx) -> Stream:
+	"""binary operators over instances of user classes (try_operation incl. the `inherits` loop, each_binary_operator)"""
+	from harness import c03_progs
+	rng = ctx.sub_rng('infer-operators')
+	cases: list[tuple[Any, list[str], list[str]]] = []
+	skipped = 0
+	sess = Session(ctx)
+	hist: Counter[str] = Counter()
+	dl = Deadline(ctx, 15, 200)
+	for i in range(ctx.scale(10, 150)):
+		if i >= 3 and dl.over():
+			break
+		g = c03_progs.ProgGen(random.Random(rng.random()))
+		g.known_rate = 1.0     # the listed forms are what the model has to reproduce too
+		d, b = g.operator_block()
+		src = '\n'.join(d[2:]) + '\n\n\ndef main() -> None:\n' + '\n'.join(b) + '\n'
+		try:
+			case = operator_case(sess, src)
+		except (Exception, CaseTimeout):  # noqa: BLE001 - a program tranp cannot load / an annotation outside the driver's vocabulary: not a case
+			case = None
+		if case is None:
+			skipped += 1
+			continue
+		desc, ops, real = case
+		hist.update(desc['hist'])
+		cases.append((desc, ['new', *ops] if not cases else ops, ['ok', *real] if not cases else real))
+	st = common.correspond('infer-operators', cases, 'infer')
+	st.histogram = dict(hist)
+	st.histogram['cut-by-deadline'] = dl.cut
+	st.note = ('generated hierarchies of user classes overloading binary operators (overrides with the subclass as result, non-overriding '
+		f'siblings, grandchildren, scalar parameters with reflected methods, unrelated classes over each other): per program the class table and the operator parameter '
+		f'types read with CPython ast, then every flat chain `x op y [op z]` of the entry function: real type_of vs model foldBinAny; skipped programs: {skipped}')
+	return st
+
+
+SPREAD_SOURCES = ['xs', 'ys', 'ss', 'xss', 'd', 'dd', 't', 'o', 'ol', 'a', 's', 'd.keys()', 'd.values()', 'd.items()', 'dd.values()', 'range(a)', 'reversed(xs)', 'enumerate(ss)',
+	'[a, c]', '[a, e]', '(a, s)', '{s: a}', 'xss[0]', 'dd[s]', 'xs.copy()', '[z0 for z0 in ys]', 's.split()', 'xs if p else ys', 'on', 'oln', 'odn', 'od', 'otn', 'zz']
+
+
+def stream_spread(ctx: Ctx) -> Stream:
+	"""on_spread: the type of the Spread node of `[*e]` for generated and pinned expressions e (also ill-typed / optional / scalar ones)"""
+	rng = ctx.sub_rng('infer-spread')
+	sess = Session(ctx)
+	exprs: list[str] = list(SPREAD_SOURCES)
+	for _ in range(ctx.scale(40, 400)):
+		g = X.Gen(rng, X.BASE_ENV, 'infer')
+		t = g.pick_ty(2)
+		if t[0] not in ('list', 'dict', 'tuple'):
+			t = ('list', t)
+		exprs.append(g.expr(t, rng.randint(0, 2)).text)
+	cases: list[tuple[Any, list[str], list[str]]] = []
+	envx = X.env_sexp(X.BASE_ENV)
+	for lo in range(0, len(exprs), 20):
+		chunk = exprs[lo:lo + 20]
+		src = X.header(X.BASE_ENV) + ''.join(f'\tv{i} = [*{e}]\n' for i, e in enumerate(chunk))
+		try:
+			with cpu_budget(TRANP_BUDGET_S):
+				refl, stmts = sess.statements(src)
+			assert len(stmts) == len(chunk)
+		except (Exception, CaseTimeout):  # noqa: BLE001 - an unparsable chunk is not a case
+			continue
+		for e, st in zip(chunk, stmts):
+			try:
+				sp = st.value.values[0]
+				sx = X.node_sexp(sp.expression)
+			except (X.Unsupported, AttributeError, IndexError):
+				continue
+			r = real_type(refl, sp)
+			cases.append(({'expr': e, 'real': r}, ['new', f'spread\t{envx}\t{sx}'] if not cases else [f'spread\t{envx}\t{sx}'], ['ok', r] if not cases else [r]))
+	st = common.correspond('infer-spread', cases, 'infer', classify=lambda d: d['real'][3:].split('<')[0] if d['real'].startswith('ok ') else d['real'])
+	st.note = 'the Spread node of `v = [*e]` in a typed function: real type_of(spread node) vs model onSpread(infer e)'
 	return st
 
 
@@ -273,14 +475,16 @@ def stream_pytype(ctx: Ctx) -> Stream:
 	cases: list[tuple[Any, list[str], list[str]]] = []
 	skipped: Counter[str] = Counter()
 	env_tys = X.BASE_ENV
-	while len(cases) < n:
+	dl = Deadline(ctx, 20, 300)
+	while len(cases) < n and not (len(cases) >= 300 and dl.over()):
 		g = X.Gen(rng, env_tys, 'pytype')
 		t = g.pick_ty(2)
 		src = g.expr(t, rng.randint(1, 4)).text
 		env = {name: X.gen_value(rng, ty) for name, ty in env_tys}
 		try:
 			sx = X.ast_sexp(ast.parse(src, mode='eval').body)
-			real = py_eval(src, env)
+			with cpu_budget(CPYTHON_BUDGET_S):
+				real = py_eval(src, env)
 			envx = '( ' + ' '.join(f'( {k} {X.val_sexp(v)} )' for k, v in env.items()) + ' )'
 		except OutOfDomain as e:
 			skipped[f'domain:{e}'] += 1
@@ -288,9 +492,12 @@ def stream_pytype(ctx: Ctx) -> Stream:
 		except X.Unsupported as e:
 			skipped[f'unsupported:{e}'] += 1
 			continue
+		except (CaseTimeout, RecursionError, MemoryError, OverflowError):
+			skipped['cpython-budget'] += 1
+			continue
 		cases.append(({'expr': src, 'real': real}, [f'pytype\t{envx}\t{sx}'], [real]))
 	st = common.correspond('pytype', cases, 'infer', classify=lambda d: d['real'][3:].split('\t')[0].split('<')[0] if d['real'].startswith('ok ') else d['real'])
-	st.note = f'CPython eval of generated core expressions under random environments vs model typeOf∘eval; skipped (outside the exact domain): {dict(skipped)}'
+	st.note = f'CPython eval of generated core expressions under random environments vs model typeOf∘eval; skipped (outside the exact domain): {dict(skipped)}; cut by the wall deadline: {n - len(cases)} of {n}'
 	return st
 
 
@@ -320,23 +527,39 @@ def check_program(sess: Session, src: str, calls: list[tuple[str, list[Any]]], r
 	from harness import c03_search as S
 	try:
 		run = S.Run(src)
-	except SyntaxError:
+	except (SyntaxError, ValueError, RecursionError):
 		res.histogram['skipped:not-python'] = res.histogram.get('skipped:not-python', 0) + 1
 		return
-	err = run.load()
+	try:
+		with cpu_budget(CPYTHON_BUDGET_S):
+			err = run.load()
+			if err is None:
+				for fn, args in calls:
+					run.call(fn, args)
+	except CaseTimeout:
+		res.histogram['skipped:cpython-budget'] = res.histogram.get('skipped:cpython-budget', 0) + 1
+		return
 	if err is not None:
 		res.histogram['skipped:load-error'] = res.histogram.get('skipped:load-error', 0) + 1
 		return
-	for fn, args in calls:
-		run.call(fn, args)
 	res.cases += 1
 	try:
-		refl, mod = sess.module(src)
-	except Exception as e:  # noqa: BLE001 - CPython ran the program: the real code must accept it
-		res.findings.append(Finding(key=f'raises:{exc_enum(e)}:load', what=f'tranp cannot load a program CPython runs: {exc_enum(e)}: {str(e)[:200]}',
+		with cpu_budget(TRANP_BUDGET_S):
+			try:
+				refl, mod = sess.module(src)
+			except Exception as e:  # noqa: BLE001 - CPython ran the program: the real code must accept it
+				res.findings.append(Finding(key=f'raises:{exc_enum(e)}:load', what=f'tranp cannot load a program CPython runs: {exc_enum(e)}: {str(e)[:200]}',
+					replay={'program': src, 'session': session}))
+				return
+			dis, stats = S.compare(run, refl, mod)
+	except CaseTimeout as e:
+		# CPython ran the program in milliseconds: inference that does not come back is a totality failure (CPU time, not wall time)
+		res.findings.append(Finding(key='timeout:inference', what=f'loading / typing a program CPython runs used {e}', replay={'program': src, 'session': session}))
+		return
+	except Exception as e:  # noqa: BLE001 - the comparison itself must not end the check: an unreadable answer of the real code is a finding
+		res.findings.append(Finding(key=f'raises:{exc_enum(e)}:compare', what=f'the answers of the real code could not be compared: {exc_enum(e)}: {str(e)[:200]}',
 			replay={'program': src, 'session': session}))
 		return
-	dis, stats = S.compare(run, refl, mod)
 	for k, v in stats.items():
 		res.histogram[f'{label}:{k}'] = res.histogram.get(f'{label}:{k}', 0) + v
 	history = None
@@ -376,7 +599,9 @@ def search_witnesses(ctx: Ctx) -> SearchResult:
 				recs.append((fn, rec['witness']))
 	shared, known_sess, regr_sess = Session(ctx), Session(ctx), Session(ctx)
 	each_fresh = ctx.tier != 'quick'   # quick: the regression cases share one session too (an App costs about a second)
-	for fresh, items in ((True, recs), (False, list(reversed(recs)))):
+	# (quick: the second, reversed pass replays the known witnesses and every second regression case, alternating with the seed)
+	second = [r for i, r in enumerate(recs) if each_fresh or r[1].get('expect') != 'pass' or i % 2 == ctx.seed % 2]
+	for fresh, items in ((True, recs), (False, list(reversed(second)))):
 		for fn, w in items:
 			calls = [(c[0], [tuple(a) if w.get('tuple_args') and isinstance(a, list) else a for a in c[1]]) for c in w['calls']]
 			before = len(res.findings)
@@ -404,9 +629,12 @@ def search_exprs(ctx: Ctx) -> SearchResult:
 	res = SearchResult('expression sites of typed functions: real type_of vs CPython run-time type (shared and fresh sessions)')
 	seen: set[str] = set()
 	n_sessions = ctx.scale(2, 8)
+	dl = Deadline(ctx, 35, 500)
 	for si in range(n_sessions):
 		sess = Session(ctx)
 		for pi in range(ctx.scale(8, 40)):
+			if (si, pi) >= (0, 4) and dl.over():
+				continue
 			fns = []
 			for i in range(8):
 				g = X.Gen(rng, SEARCH_ENV, 'search')
@@ -503,6 +731,7 @@ def search_exprs(ctx: Ctx) -> SearchResult:
 			seen.update(fns)
 			check_program(sess, src, calls, res, f'session{si}:program{pi}', 'exprs')
 	res.distinct = len(seen)
+	res.histogram['programs-cut-by-deadline'] = dl.cut
 	res.note = 'session = one tranp App reused for all its programs (history effects of the inference service are part of the quantifier)'
 	return res
 
@@ -514,7 +743,10 @@ def search_programs(ctx: Ctx) -> SearchResult:
 	res = SearchResult('whole generated programs: every declaration and expression site, real type_of vs CPython run-time type')
 	sess = Session(ctx)
 	seen: set[str] = set()
+	dl = Deadline(ctx, 25, 300)
 	for pi in range(ctx.scale(24, 400)):
+		if pi >= 6 and dl.over():
+			break
 		if pi % 60 == 59:
 			sess = Session(ctx)
 		try:
@@ -527,6 +759,7 @@ def search_programs(ctx: Ctx) -> SearchResult:
 		seen.add(src)
 		check_program(sess, src, calls, res, f'program{pi}', 'programs')
 	res.distinct = len(seen)
+	res.histogram['cut-by-deadline'] = dl.cut
 	return res
 
 
@@ -537,7 +770,10 @@ def search_typed_programs(ctx: Ctx) -> SearchResult:
 	res = SearchResult('typed whole programs (classes, Enum, Generic, optionals, containers of objects): real type_of vs CPython run-time type')
 	sess = Session(ctx)
 	seen: set[str] = set()
+	dl = Deadline(ctx, 40, 500)
 	for pi in range(ctx.scale(16, 250)):
+		if pi >= 6 and dl.over():
+			break
 		if pi % 40 == 39:
 			sess = Session(ctx)
 		src, entry, args, hist = c03_progs.generate(random.Random(rng.random()), allow_hetero=rng.random() < 0.7)
@@ -546,6 +782,7 @@ def search_typed_programs(ctx: Ctx) -> SearchResult:
 		seen.add(src)
 		check_program(sess, src, [(entry, a) for a in args], res, f'program{pi}', 'typed')
 	res.distinct = len(seen)
+	res.histogram['cut-by-deadline'] = dl.cut
 	return res
 
 
@@ -568,6 +805,11 @@ STATEMENTS: dict[str, str] = {
 	'lambda_param_callable': 'resolve_lambda_param on the model: for C = Callable[[A...], R] the i-th lambda parameter is A_i when the lambda is assigned under the annotation C, returned from a function declared -> C, or passed where the parameter of the function / closure / method / constructor is C, C | None or None | C',
 	'sound_lambda_param': 'applied to values of the types its parameters were given, the lambda body runs in an environment conforming to the one it is typed in: the inferred body type denotes the returned value, and the lambda is typed Callable<parameter types..., body type> (on_lambda)',
 	'sound_lambda_immediate': '(lambda x...: body)(args...) without any assumption on a callee: parameters typed by the inferred argument types, argument values conform to them, the body type denotes the value of the call',
+	'user_operator_left_decides': 'one step of each_binary_operator on the model: once the LEFT operand\'s try_operation answers, that is the type — whatever the right operand\'s class declares for the operator (the swapped attempt is a fallback only)',
+	'user_operator_partial': 'x op y with x an instance of a user class whose operator method (found through the chain) takes the class P, y an instance of P or of a class with P among its DIRECT bases: typed by the declared result of type(x).<dunder>, the method CPython calls (tryOpUser = try_operation incl. the inherits loop, traits.py:178-225)',
+	'user_operator_counterexample': 'known finding operator-operand-indirect-subclass: the full sentence (y of ANY descendant of P: user_operator_statement) is false on the code — nu + b2 with Big2(Big(Num)) is typed Big, CPython: Num (corpus witness 44)',
+	'spread_items / sound_spread': 'on_spread (first type argument) equals the loop-variable type iterates answers for a list, a dict (keys) and Iterator<T> sources, for EVERY element type; hence the items CPython spreads conform to it (through sound_iter)',
+	'spread_tuple_counterexample': 'known finding spread-first-type-argument: for t = (1, "a") : tuple[int, str] on_spread answers int, CPython spreads a str too',
 	'list_literal_counterexample': 'known finding list-literal-class-dedup: [[None], [1]] is typed list<list<int>> (outside Core)',
 	'dict_get_counterexample': 'known finding dict-get-missing-key: d.get("z") typed int, CPython returns None (outside Core)',
 	'abs_bool_counterexample': 'known finding abs-of-bool: abs(True) typed bool, CPython: int',
@@ -581,11 +823,12 @@ PARTIAL = {
 	'proved': 'int/float/bool/str, list[T], dict[K,V], tuple[...], optionals (as denotation of a Union), stub generics with their arguments (list/dict/str methods, len/abs/min/max/int/float/bool/str/list/range/reversed/enumerate), '
 		'literals, variables, unary/binary operators, comparisons, and/or/not, ternary, subscripts, slices, groups, list/dict comprehensions: soundness and totality on the model, by induction on expressions; '
 		'session independence for all expressions; template substitution of list.pop for all element types',
-	'correspondence_only': 'that the model IS the code: ProceduralResolver handlers, try_operation, TemplateManipulator path matching (stream infer, shared sessions = history), member lookup through the inheritance chain, on_relay, constructors, IteratorTrait, declaration typing of whole function bodies (stream infer-programs); CPython semantics of the core (stream pytype)',
+	'correspondence_only': 'that the model IS the code: ProceduralResolver handlers, try_operation, TemplateManipulator path matching (stream infer, shared sessions = history), try_operation / each_binary_operator on user classes (stream infer-operators), on_spread (stream infer-spread), member lookup through the inheritance chain, on_relay, constructors, IteratorTrait, declaration typing of whole function bodies (stream infer-programs); CPython semantics of the core (stream pytype)',
 	'search_only': 'that the class-scope visibility rule equals CPython\'s scoping (LEGB) — the Lean side states the rule on C08\'s Scope model and checks it on the nested-class program, the equality with CPython is exhibited by the recorder search (shadowing through nested classes); diamond-shaped hierarchies (chainOf is the depth-first walk of the code, not C3), Enum, user generic classes and functions incl. attributes typed by a type variable read on descendants (generic_chain_block; two known findings for METHODS there) (the template port is proved for stub methods; the position rule of 68f934e is checked on examples), nested classes, imports, resolve_unknown laziness, while/try/with, augmented and attribute assignments',
 	'assumed_of_callees (sound_lambda_param)': 'a callee applies a callback declared Callable[[A...], R] to values of the types A (hypothesis ArgsConf; the typing obligation of the callee body, exhibited by the recorder search which observes the parameters inside lambda bodies); discharged for immediate calls',
+	'assumed_of_user_code (user operators)': 'pyUserOpTy: an operator method returns a value of its declared type, and no class declares a REFLECTED method for class operands with another result type than the forward method (CPython asks a subclass operand first only through a reflected method); hierarchies are tree-shaped',
 	'assumed_of_user_code (WorldConf)': 'constructor / method / property / class-variable / __next__ results conform to their DECLARED types (each method body\'s own typing obligation; method bodies are typed statement by statement by sound_decl / sound_conf but not executed by the model)',
-	'still_false_on_the_code (known findings)': 'list-literal-class-dedup, dict-get-missing-key, abs-of-bool, list-of-dict-items, boolop-nonbool-operands, tuple-slice-nonliteral-bounds, ternary-union-of-containers (each with a proved counterexample outside Core), min-max-mixed-numeric, union-of-subclasses-attribute, explicit-init-call, generic-method-on-indirect-subclass, generic-method-nested-type-argument (floats / user classes / lambdas are outside the model: corpus witness only); every one is generated at a low rate and replayed from corpus/C03 first',
+	'still_false_on_the_code (known findings)': 'list-literal-class-dedup, dict-get-missing-key, abs-of-bool, list-of-dict-items, boolop-nonbool-operands, tuple-slice-nonliteral-bounds, ternary-union-of-containers (each with a proved counterexample outside Core), min-max-mixed-numeric, union-of-subclasses-attribute, explicit-init-call, generic-method-on-indirect-subclass, generic-method-nested-type-argument, shift-reflected-user-operand (floats / user classes / lambdas are outside the model: corpus witness only), operator-operand-indirect-subclass, spread-first-type-argument (proved counterexamples); every one is generated at a low rate and replayed from corpus/C03 first',
 }
 
 ASSUMPTIONS = [
@@ -613,7 +856,7 @@ def run(ctx: Ctx) -> int:
 		translate_ok, translate_msg = False, f'{type(e).__name__}: {e}'
 	proof = common.prove(ctx, PROP, leanchecker=ctx.thorough)
 	with ctx.timed('correspondence'):
-		streams = [stream_infer(ctx), stream_programs(ctx), stream_pytype(ctx)]
+		streams = [stream_infer(ctx), stream_programs(ctx), stream_operators(ctx), stream_spread(ctx), stream_pytype(ctx)]
 	with ctx.timed('search'):
 		searches = [search_witnesses(ctx), search_exprs(ctx), search_programs(ctx), search_typed_programs(ctx)]
 	# findings outside the understood failing-input classes first (finish prints at most five VIOLATION lines)
